@@ -54,6 +54,7 @@ class Effects:
         self._fresh: dict = {}
         self._taint: dict = {}
         self._parents: dict = {}
+        self._callers = None
 
     # ------------------------------------------------------------------------------------------------------------------
     # derivation: which variables denote (part of) the tree of which parameter -- flow-insensitive
@@ -208,6 +209,9 @@ class Effects:
                     if isinstance(tt, (ast.Attribute, ast.Subscript)):
                         if _is_cache_chain(tt):
                             continue      # per-node memo: populating / flushing it is not a change of the tree
+                        if isinstance(tt, ast.Attribute) and isinstance(tt.value, ast.Name) and tt.value.id == 'self' and \
+                                fi.cls not in (None, 'FST'):
+                            continue      # field of a helper object (view, context manager, editor), not of a tree node
                         if isinstance(tt, ast.Subscript) and isinstance(tt.value, ast.Name) and tt.value.id in fresh:
                             continue      # item store into a locally built container
                         r = self.expr_roots(fi, tt.value)
@@ -358,6 +362,34 @@ class Effects:
                 out.append(cc)
         return out
 
+    def caller_consts(self, fi: FuncInfo) -> dict:
+        """For a private function: {param: literal} for parameters that receive the same literal at every in-package call
+        site (defaults included).  Public functions (no leading underscore) get {} -- any value can come from outside."""
+        if not fi.name.startswith('_') or fi.name.startswith('__'):
+            return {}
+        if self._callers is None:
+            self._callers = {}
+            for f in self.repo.all_funcs():
+                if isinstance(f.node, ast.Lambda):
+                    continue
+                for n, cal, binding in self.call_edges(f):
+                    self._callers.setdefault(cal.key, []).append((f, n, binding))
+        sites = self._callers.get(fi.key, [])
+        if not sites:
+            return {}
+        agreed = None
+        for f, n, binding in sites:
+            if any(isinstance(a, ast.Starred) for a in n.args) or any(k.arg is None for k in n.keywords):
+                return {}
+            lc = literal_consts(fi, binding)
+            if agreed is None:
+                agreed = dict(lc)
+            else:
+                agreed = {k: v for k, v in agreed.items() if k in lc and lc[k] == v and type(lc[k]) is type(v)}
+            if not agreed:
+                return {}
+        return agreed or {}
+
     def cfg(self, fi: FuncInfo) -> CFG:
         c = self._cfgs.get(fi.key)
         if c is None:
@@ -382,7 +414,7 @@ class Effects:
             self._ce_cache[fi.key] = d
         return d
 
-    def node_mutates(self, fi: FuncInfo, cfg: CFG, node, param: str, facts: dict | None = None) -> list:
+    def node_mutates(self, fi: FuncInfo, cfg: CFG, node, param: str, facts: dict | None = None, ignore=frozenset()) -> list:
         """AST constructs evaluated at CFG node `node` that mutate the tree of `param` (callees specialised by the abstract
         values of their arguments under `facts`)."""
         self.compute_mutations()
@@ -394,6 +426,8 @@ class Effects:
                 hits.append(x)
             if isinstance(x, ast.Call) and id(x) in ce:
                 for cal, binding in ce[id(x)]:
+                    if cal.name in ignore:
+                        continue
                     done = False
                     disj = facts if isinstance(facts, list) else [facts or {}]
                     for cc in self.call_consts_all(cal, binding, disj):
